@@ -32,9 +32,9 @@ func verifHarness_C16_resource() {
 	cfg := verifCfg()
 	subset := cfg % 128
 	uses := (cfg/128)%2 == 1
-	bases := []string{"/", "/api/", "/v1.0/"}
+	bases := []string{"/", "/api/", "/v1.0/", "/API/V2/"}
 	base := bases[(cfg/256)%len(bases)]
-	verifMapOrder((cfg / 768) % 7) // iteration order of the action table is unspecified
+	verifMapOrder((cfg / 1024) % 7) // iteration order of the action table is unspecified
 	var ctl any
 	if uses {
 		ctl = verifC16WithUses[subset]
@@ -61,7 +61,7 @@ func verifHarness_C16_resource() {
 	// resource-level middleware, in a slice with spare capacity in half of the configurations
 	var groupIDs []int
 	var groupMws []HandlerFunc
-	if ng := (cfg / 5376) % 3; ng > 0 {
+	if ng := (cfg / 7168) % 3; ng > 0 {
 		hs, ids := v.mk(&next, ng, 3)
 		groupMws, groupIDs = hs, ids
 	}
